@@ -86,6 +86,17 @@ def audit(ctx):
                     problems.append('%s: a named guard may be held across a call that locks again' % name)
             else:
                 problems.append('%s: unrecognised use of INTERNER.lock(): %r' % (name, (line + tail)[:80]))
+    # 3b. one operation = one critical section: a function that takes the lock twice is two steps of the scheduler model, and state it
+    #     sets up under the first acquisition (a memo, a mode flag) can be changed by another thread before the second
+    for name, text in files.items():
+        code = re.sub(r'//.*', '', text)
+        for mm in re.finditer(r'\bfn\s+(\w+)[^{;]*\{', code):
+            i, d = mm.end(), 1
+            while d and i < len(code):
+                d += (code[i] == '{') - (code[i] == '}')
+                i += 1
+            if len(re.findall(r'INTERNER\s*\.lock\(\)', code[mm.end():i])) > 1:
+                problems.append('%s: fn %s takes INTERNER.lock() more than once (one API call is no longer one atomic step)' % (name, mm.group(1)))
     # 4. reads of the arena go through InternerShared::node only
     if re.search(r'\.nodes\b', re.sub(r'//.*', '', files['tree.rs'])):
         problems.append('tree.rs touches the arena directly')
@@ -100,7 +111,7 @@ def run(ctx):
     ctx.extra['rule'] = ('(1) audit of the lock discipline assumed by the theorem (single Mutex, state touched only in InternerGuard, no re-entrant lock, arena '
                          'reads through InternerShared::node); (2) stress: 8-16 threads race, from one barrier, to parse the same fresh markers in rotated orders, '
                          'combine, simplify, render, evaluate and compare them; all threads must produce == markers and identical observations, equal to a '
-                         'single-threaded fresh process; watchdog for deadlock, any panic counts; (3) hammer: and / or / is_disjoint of 17 marker pairs (one nested 85 parentheses deep), re-parses of their texts, and (every 32nd repetition) requires-python complexify / simplify, simplify_extras and TRUE complexified to a bound no thread has used before, computed once sequentially, then recomputed 100 000-600 000 times by each of 8 threads at once, and 2 500-40 000 times while one thread keeps the interner busy with a large is_disjoint (a 16-fold conjunction of disjunctions), every result compared with the sequential one; the audit also requires that src/marker has no shared mutable state besides the interner (no other static, atomics, cells, thread-locals, locks); this part is supporting test evidence, not proof. '
+                         'single-threaded fresh process; watchdog for deadlock, any panic counts; (3) hammer: and / or / is_disjoint of 17 marker pairs (one nested 85 parentheses deep), re-parses of their texts, and (every 32nd repetition) requires-python complexify / simplify, simplify_extras (with a different set of active extras on each thread) and TRUE complexified to a bound no thread has used before, computed once sequentially, then recomputed 100 000-600 000 times by each of 8 threads at once, and 2 500-40 000 times while one thread keeps the interner busy with a large is_disjoint (a 16-fold conjunction of disjunctions), every result compared with the sequential one; the audit also requires that src/marker has no shared mutable state besides the interner (no other static, atomics, cells, thread-locals, locks); this part is supporting test evidence, not proof. '
                          'non-trivial = distinct (round, marker text)')
     probs = audit(ctx)
     ctx.extra['lock_audit'] = probs or 'ok'
@@ -159,6 +170,11 @@ def run(ctx):
         texts = ["os_name == 'posix%d'" % rd, "os_name == 'nt'", "sys_platform == 'win32' and os_name == 'nt'", "sys_platform == 'linux'",
                  "python_full_version >= '3.8' and sys_platform == 'linux'", "python_full_version < '3.8' and sys_platform == 'linux'",
                  "platform_machine == 'arm64'", "platform_machine == 'x86_64'", "extra == 'a%d'" % rd, "extra != 'a%d' and 'lin' in sys_platform" % rd, "'lin' in sys_platform"]
+        # extras a, b, c guarding different branches: every thread restricts these with its own set of active extras
+        texts += ["(os_name == 'posix' and extra == 'a') or (os_name == 'nt' and extra == 'b')",
+                  "(sys_platform == 'linux' and extra == 'a') or (sys_platform == 'win32' and extra == 'b') or (sys_platform == 'darwin' and extra == 'c')",
+                  "python_version >= '3.8' and (extra == 'a' or extra == 'c') and extra != 'b'",
+                  "(extra == 'a' and extra == 'b') or (platform_machine == 'arm64' and extra == 'c')"]
         texts += [markers.gen_marker(ctx.rng, 1) for _ in range(6)]
         # deep nesting and a wide conjunction of disjunctions: per-call state (depth counters, work budgets) must not be shared between threads
         deep = "python_version >= '3.%d' and os_name == 'posix'" % rd
